@@ -68,3 +68,23 @@ Definition map_range_exceptions : list exception_entry := [
 
 (* reviewed uses of ambient process state in library code (package, function, callee): none today *)
 Definition ambient_allowed : list (string * string * string) := [].
+
+(* The packages of github.com/nyaruka/gocommon that goflow imports (second table of gen/MapRangeSites.v, read from the module
+   cache).  goflow cannot repair these; the three order-dependent ones are known findings with a probe in the driver:
+     gocommon/dates init 0        dates/i18n.go:34   the BCP47 matcher is built from maps.Keys(translations) in map order: for a locale
+                                  with several equally good matches (fra-SN, ara-PS ...) month / day names differ between PROCESSES
+     gocommon/dates parseError    dates/parse.go:62  reverse lookup of a layout token over a map in which `t` and `tt` map to the same
+                                  sequence: the error text of parse_time / parse_datetime names either
+     gocommon/urns unescape       urns/parser.go:106 undoes the escapes in map order: a path with a literal "%2523" parses to "%23" or "#"
+     gocommon/dates init 1        i18n.go:37         writes only the element it visits
+     gocommon/httpx NewRequest    http.go:171        r.Header.Set(key, value) for caller supplied headers
+     gocommon/httpx MockRequestor.Do, MockResponse.Make   test doubles: no reference from goflow's library code (callers = 0) *)
+Definition dep_map_range_exceptions : list exception_entry := [
+  x "gocommon/dates" "init" 0 "map[string]*dates.Translation" [EOrderCall SortNone] (RKnownFinding "dates:locale-match-map-order");
+  x "gocommon/dates" "init" 1 "map[string]*dates.Translation" [EElemWrite] RKeyPartitioned;
+  x "gocommon/dates" "parseError" 0 "map[string]struct{mapped string; seqType int; parseable bool}" [EAssignOuter; EBreak] (RKnownFinding "dates:parse-error-ambiguous-layout-token");
+  x "gocommon/httpx" "MockRequestor.Do" 0 "map[string][]*httpx.MockResponse" [EOrderCall SortNone] RNoCaller;
+  x "gocommon/httpx" "MockResponse.Make" 0 "map[string]string" [ECallStmt] RNoCaller;
+  x "gocommon/httpx" "NewRequest" 0 "map[string]string" [ECallStmt] RCanonicalKeyWrite;
+  x "gocommon/urns" "unescape" 0 "map[rune]string" [EAssignOuter; ELoopCarried] (RKnownFinding "urns:percent-escape-map-order")
+].
